@@ -49,6 +49,7 @@ func Steady() {
 		ts, tn := tick()
 		m0, k0 := e.Store.Calls(), e.KMS.Encs+e.KMS.Decs
 		isEnc := vx.Choice("op", 2) == 0
+		rotated := ikc != ik0
 		var within bool
 		if isEnc {
 			// rotation on expiry is a legitimate reason to go to the store
@@ -71,7 +72,10 @@ func Steady() {
 			vx.Assert("C20.nocache_rereads", dm > 0)
 			vx.Assert("C20.nocache_retains_nothing", e.Secrets.Live() == 0)
 		} else {
-			vx.Assert("C20.no_external_calls_within_interval", vx.Implies(within, dm == 0 && dk == 0))
+			// "a working set that fits the cache": after a rotation the session works with two key generations (the
+			// old record's keys and the current ones), which a capacity-1 cache cannot hold at once
+			fits := !(rotated && (cache == env.CacheLRU1 || cache == env.CacheSharedLRU1 || cache == env.CacheLFU1))
+			vx.Assert("C20.no_external_calls_within_interval", vx.Implies(vx.And(within, fits), dm == 0 && dk == 0))
 			// ... and only for one interval: the first use after it re-reads the key's record before using the key
 			// (a key already known to be unusable for new data - revoked, or under an expired system key - has
 			// nothing left to learn from a re-read, so the obligation is stated for keys whose chain is still valid)
